@@ -14,7 +14,10 @@ run(ctx)   end-to-end sweep of the real CLI binary under --curve over generated
            evaluated by vm_compute over the same abstract programs and (b) the
            documented semantics (doc table with Circomlib's spelling; n < 254;
            2^k - 1 <= p/2 with the documented primes; ASCII case-insensitive
-           curve names) as the oracle.
+           curve names) as the oracle.  Every file is also run WITHOUT --curve
+           (the default curve is observed, not read: compared under BN254), and
+           the `default_value` of the `curve` field of struct Cli plus the const
+           DEFAULT_CURVE are anchored items of the strict reader.
 """
 import concurrent.futures
 import itertools
@@ -36,6 +39,7 @@ REL = {
     "constants": "program_structure/src/utils/constants.rs",
     "doc": "doc/analysis_passes.md",
     "cli": "cli/src/main.rs",
+    "config": "program_analysis/src/config.rs",
 }
 VARIANTS = ["Bn254", "Bls12_381", "Goldilocks"]
 CANON = {"Bn254": "BN254", "Bls12_381": "BLS12_381", "Goldilocks": "GOLDILOCKS"}
@@ -92,7 +96,25 @@ def parse_sources():
         shape += r["shape"]
         env.update(r["env"])
         problems += r["problems"]
-    res = {}
+    # the two CLI items the default curve comes from (second audit): the `curve` field of struct Cli
+    # with its whole #[clap(...)] attribute, and the const DEFAULT_CURVE of program_analysis/src/config.rs
+    try:
+        r = S.read_cli(src("cli"), src("config"))
+    except Exception as e:  # noqa: BLE001
+        r = {"shape": [(l, False) for l in S.CLI_LABELS], "env": {}, "default_curve": "",
+             "problems": ["cli: the strict reader failed on the current tree: %r" % (e,)]}
+    shape += r["shape"]
+    env.update(r["env"])
+    problems += r["problems"]
+    res = {"cli_default_curve": r["default_curve"]}
+
+    def invalidate(label, why):
+        """A binding that matched its hole but is not the pinned value: the item's row of source_shape becomes false."""
+        problems.append("%s: %s" % (label, why))
+        for i, (l, ok) in enumerate(shape):
+            if l == label:
+                shape[i] = (l, False)
+        env.pop(label, None)
     # --- bn254_specific_circuit.rs: const arrays + curve dispatch -----------
     arrays = []
     for label, ok in shape:
@@ -128,6 +150,14 @@ def parse_sources():
         res["nonstrict_exempt"] = []
         off = None
     e = env.get("nonstrict::visit_statement")
+    if e:
+        # the report builder of each block is pinned to its literal (second audit): `build_num2bits` in the
+        # Num2Bits block, `build_bits2num` in the Bits2Num block - a swapped builder changes the message only
+        bad = [(g["lit"], g["builder"]) for g in e["guards"] if g["builder"] != "build_" + g["lit"].lower()]
+        if bad:
+            invalidate("nonstrict::visit_statement", "the guard block of %r pushes the report of `%s`, expected `build_%s`"
+                       % (bad[0][0], bad[0][1], bad[0][0].lower()))
+            e = None
     if e and off is not None and e["guards"]:
         res["nonstrict_guards"] = [(g["lit"], g["arity"], g["idx"], CMP[g["op"]], off) for g in e["guards"]]
     else:
@@ -149,7 +179,11 @@ def parse_sources():
     res["from_str_normaliser"] = e["normaliser"] if e else "unrecognised"
     res["from_str_arms"] = [(a["lit"], a["variant"]) for a in e["arms"]] if e else []
     e = env.get("constants::Curve")
-    res["enum_variants"] = [v["variant"] for v in e["variants"]] if e else []
+    if e and e["first"] != "Bn254":
+        # `#[default]` is pinned to the first variant by the template; that variant must be the documented default
+        invalidate("constants::Curve", "`#[default]` sits on variant %s, the documented default curve is BN254" % e["first"])
+        e = None
+    res["enum_variants"] = [e["first"]] + [v["variant"] for v in e["variants"]] if e else []
     if sorted(res["enum_variants"]) != sorted(VARIANTS):
         problems.append("enum Curve no longer has exactly the variants %s: %r" % (VARIANTS, res["enum_variants"]))
     e = env.get("constants::Curve::prime")
@@ -209,10 +243,8 @@ def parse_doc():
     cli = src("cli")
     m = re.search(r"///\s*Set curve \(([^)]*)\)", cli)
     help_names = [x.strip() for x in re.split(r",\s*(?:or\s+)?|\s+or\s+", m.group(1))] if m else []
-    m = re.search(r'DEFAULT_CURVE: &str = "([^"]*)"', open(os.path.join(common.REPO, "program_analysis/src/config.rs")).read())
-    default_curve = m.group(1) if m else ""
     return {"rows": rows, "columns": cols, "bits": bits, "default_bits": default_bits, "help_names": help_names,
-            "default_curve": default_curve, "problems": problems}
+            "problems": problems}
 
 
 # ---------------------------------------------------------------------------
@@ -325,8 +357,8 @@ def safe(fn, fallback):
 PS_FALLBACK = {"arrays": [], "dispatch": [], "bn254_exact_match": False, "nonstrict_curve": ("CUnrecognised", ""),
                "nonstrict_exempt": [], "nonstrict_guards": [("Num2Bits", 1, 0, "CUnrecognised", 0)], "lessthan_guard": ("CUnrecognised", 0),
                "lessthan_literals": (("", 0), ("", 0), "", ""), "from_str_normaliser": "unrecognised", "from_str_arms": [], "enum_variants": [],
-               "prime_literals": [], "shape": [("extractor", False)]}
-PD_FALLBACK = {"rows": [], "columns": [], "bits": [], "default_bits": -1, "help_names": [], "default_curve": ""}
+               "prime_literals": [], "shape": [("extractor", False)], "cli_default_curve": ""}
+PD_FALLBACK = {"rows": [], "columns": [], "bits": [], "default_bits": -1, "help_names": []}
 
 
 def gen(ctx):
@@ -335,7 +367,7 @@ def gen(ctx):
     pd = safe(parse_doc, PD_FALLBACK)
     g = os.path.join(common.COQ, "gen")
     # --- CurveTables.v ---
-    t = HEAD % ", ".join(REL[k] for k in ("bn254", "nonstrict", "lessthan", "constants"))
+    t = HEAD % ", ".join(REL[k] for k in ("bn254", "nonstrict", "lessthan", "constants", "cli", "config"))
     t += "Inductive cmp := CLt | CLe | CGt | CGe | CEq | CNe | CUnrecognised.\n\n"
     t += "(* const arrays of bn254_specific_circuit.rs: (identifier, declared length, elements) *)\n"
     t += "Definition const_arrays : list (string * (Z * list string)) := %s.\n\n" % clist(
@@ -376,7 +408,7 @@ def gen(ctx):
         ["(%s, %d)" % (cstr(v), n) for v, n in ps["prime_literals"]], per_line=1)
     common.write_if_changed(os.path.join(g, "CurveTables.v"), t)
     # --- DocTable.v ---
-    t = HEAD % ", ".join(REL[k] for k in ("doc", "cli"))
+    t = HEAD % ", ".join(REL[k] for k in ("doc", "cli", "config"))
     t += "(* header cells 2.. of the table, mapped to curve variants, and their `(N bits)` annotations *)\n"
     t += "Definition doc_columns : list string := %s.\n" % clist([cstr(c) for c in pd["columns"]])
     t += "Definition doc_column_bits : list Z := %s.\n" % clist([cz(b) for b in pd["bits"]])
@@ -384,9 +416,11 @@ def gen(ctx):
     t += "(* rows: (template name as printed, one mark per column) *)\n"
     t += "Definition doc_table : list (string * list bool) := %s.\n\n" % clist(
         ["(%s, [%s])" % (cstr(n), "; ".join("true" if m else "false" for m in marks)) for n, marks in pd["rows"]], per_line=1)
-    t += "(* cli/src/main.rs: `/// Set curve (...)` and program_analysis config DEFAULT_CURVE *)\n"
+    t += ("(* cli/src/main.rs: `/// Set curve (...)`; the string `--curve` defaults to: the `default_value` of the `curve`\n"
+          "   field of struct Cli, read strictly (source_shape rows cli::Cli::curve, config::DEFAULT_CURVE) - either a\n"
+          "   string literal or config::DEFAULT_CURVE of program_analysis/src/config.rs *)\n")
     t += "Definition cli_help_names : list string := %s.\n" % clist([cstr(n) for n in pd["help_names"]])
-    t += "Definition cli_default_curve : string := %s.\n" % cstr(pd["default_curve"])
+    t += "Definition cli_default_curve : string := %s.\n" % cstr(ps["cli_default_curve"] if printable(ps["cli_default_curve"]) else "unrecognised")
     common.write_if_changed(os.path.join(g, "DocTable.v"), t)
     # --- Primes.v (executed) ---
     pt = exec_primes(binary)
@@ -411,6 +445,8 @@ def gen(ctx):
 # generated .circom files and their abstract programs
 # ---------------------------------------------------------------------------
 RULES = {"CS0016": "bn254", "CS0010": "nonstrict", "CS0014": "lessthan"}
+DEFAULT_RUN = "default"     # a CLI run without `--curve`
+DOC_DEFAULT = "Bn254"       # the documented default curve (doc/analysis_passes.md, CLI help)
 CURVE_ARG = {"Bn254": "BN254", "Bls12_381": "BLS12_381", "Goldilocks": "GOLDILOCKS"}
 
 
@@ -913,7 +949,8 @@ def run_cli(cli, path, curve_arg, sarif):
         os.remove(sarif)
     except OSError:
         pass
-    cmd = [cli, "--curve", curve_arg, "--sarif-file", sarif, path]
+    # curve_arg None: the option is absent - the default of `--curve` is what is observed
+    cmd = [cli] + (["--curve", curve_arg] if curve_arg is not None else []) + ["--sarif-file", sarif, path]
     rc, out, err = common.sh(cmd, timeout=300)
     res = {"CS0016": [], "CS0010": [], "CS0014": [], "errors": []}
     if os.path.exists(sarif):
@@ -1016,7 +1053,8 @@ def cli_signature(cli, path, spelling, sarif):
         os.remove(sarif)
     except OSError:
         pass
-    rc, out, err = common.sh([cli, "--curve", spelling, "--sarif-file", sarif, path], timeout=120)
+    # spelling None: no `--curve` option at all (the default curve)
+    rc, out, err = common.sh([cli] + (["--curve", spelling] if spelling is not None else []) + ["--sarif-file", sarif, path], timeout=120)
     if rc == 2 and "invalid value" in err:
         return "reject"
     if rc not in (0, 1):
@@ -1047,6 +1085,13 @@ def sweep_curve_names(ctx, cli, binary):
     by_sig = {}
     for v, sg in canon_sig.items():
         by_sig.setdefault(sg, []).append(v)
+    # the probe WITHOUT `--curve`: the documented default is BN254
+    default_sig = cli_signature(cli, probe, None, os.path.join(d, "default.sarif"))
+    default_seen = by_sig.get(default_sig, [default_sig])
+    default_failing = []
+    if "Bn254" not in default_seen:
+        default_failing.append({"input": {"kind": "curve-name", "spelling": None, "note": "no --curve option: the default curve"},
+                                "impl": default_seen[0], "spec": "Bn254"})
     uni = spelling_universe() + [s for s in NON_ASCII if s not in spelling_universe()]
 
     def one(args):
@@ -1080,21 +1125,25 @@ def sweep_curve_names(ctx, cli, binary):
             uni_want = next((v for v in VARIANTS if s.upper() == CANON[v]), "reject")
             if seen != "reject" or uni_want != "reject":
                 notes.append({"spelling": s, "cli": seen, "unicode_uppercase_says": uni_want})
-    return {"count": len(uni), "failing": failing, "notes": notes, "disagree": disagree, "problems": problems,
-            "accepted": accepted, "canon_sig": canon_sig}
+    return {"count": len(uni) + 1, "failing": default_failing + failing, "notes": notes, "disagree": disagree, "problems": problems,
+            "accepted": accepted, "canon_sig": canon_sig, "default_seen": default_seen[0]}
 
 
 # ---------------------------------------------------------------------------
 # the check
 # ---------------------------------------------------------------------------
-def check_file(f, text, cv, impl, model, doc):
+def check_file(f, text, cv, impl, model, doc, shown=None):
     """Compares one CLI run with the model and with the documented semantics.
+    `cv` is the curve the model and the oracle are evaluated under; `shown` is what
+    the records call the run (`default` = the run had no `--curve` option and is
+    compared under the documented default, BN254).
     Returns (disagreements, failing inputs, evaluations, nontrivial keys)."""
     dis, fail, nontriv = [], [], set()
+    shown = shown or cv
     evals = 0
     rc, res, err = impl
     if res["errors"]:
-        dis.append({"file": f.name, "curve": cv, "what": "the tool reported errors on a generated file", "errors": res["errors"][:3]})
+        dis.append({"file": f.name, "curve": shown, "what": "the tool reported errors on a generated file", "errors": res["errors"][:3]})
     from collections import Counter
     i16 = Counter(l for l, _, _ in res["CS0016"])
     i10 = Counter(l for l, _, _ in res["CS0010"])
@@ -1112,18 +1161,18 @@ def check_file(f, text, cv, impl, model, doc):
                 if n:
                     m10[t.stmts[idx]["line"]] += n
         else:
-            dis.append({"file": f.name, "curve": cv, "what": "model of the non-strict pass: " + str(r10)})
+            dis.append({"file": f.name, "curve": shown, "what": "model of the non-strict pass: " + str(r10)})
         if isinstance(r14, list):
             for v in r14:
                 m14[v] += 1
         else:
-            dis.append({"file": f.name, "curve": cv, "what": "model of the less-than pass: " + str(r14)})
+            dis.append({"file": f.name, "curve": shown, "what": "model of the less-than pass: " + str(r14)})
     for rule, a, b in (("CS0016", i16, m16), ("CS0010", i10, m10), ("CS0014", i14, m14)):
         if a != b:
             keys = sorted(set(a) | set(b), key=str)
             diff = [(k, a.get(k, 0), b.get(k, 0)) for k in keys if a.get(k, 0) != b.get(k, 0)]
             lines = text.splitlines()
-            dis.append({"file": f.name, "curve": cv, "rule": rule,
+            dis.append({"file": f.name, "curve": shown, "rule": rule,
                         "differences(subject, impl, model)": [(k, x, y, lines[k - 1].strip() if isinstance(k, int) and 0 < k <= len(lines) else "") for k, x, y in diff[:6]],
                         "count": len(diff)})
     # the documented semantics
@@ -1136,35 +1185,37 @@ def check_file(f, text, cv, impl, model, doc):
                     got = i16.get(st["line"], 0)
                     named = all(("`%s`" % chk[1]) in msg for l, _, msg in res["CS0016"] if l == st["line"])
                     if (got == 1) != want or got > 1 or not named:
-                        fail.append({"input": {"kind": "circom", "file": f.name, "curve": cv, "line": st["line"], "statement": st["text"], "rule": "CS0016", "subject": chk[1]},
+                        fail.append({"input": {"kind": "circom", "file": f.name, "curve": shown, "line": st["line"], "statement": st["text"], "rule": "CS0016", "subject": chk[1]},
                                      "impl": "%d report(s)" % got, "spec": "flagged" if want else "not flagged (documentation table, Circomlib spelling)"})
                     if want or chk[1].lower() in [circomlib_spelling(n).lower() for n, _ in doc["rows"]]:
-                        nontriv.add(("CS0016", cv, chk[1]))
+                        nontriv.add(("CS0016", shown, chk[1]))
                 elif chk[0] == "nonstrict":
                     if cv != "Bn254":
                         continue
                     n = size_value(chk[2], cv)
                     want = nonstrict_expected(n)
                     got = i10.get(st["line"], 0)
-                    if (got == 1) != want or got > 1:
-                        fail.append({"input": {"kind": "circom", "file": f.name, "curve": cv, "line": st["line"], "statement": st["text"], "rule": "CS0010", "subject": "%s(%s)" % (chk[1], n)},
-                                     "impl": "%d report(s)" % got,
+                    # the report names the template that is instantiated (the builder of the block, second audit)
+                    named = all(("`%s`" % chk[1]) in msg for l, _, msg in res["CS0010"] if l == st["line"])
+                    if (got == 1) != want or got > 1 or not named:
+                        fail.append({"input": {"kind": "circom", "file": f.name, "curve": shown, "line": st["line"], "statement": st["text"], "rule": "CS0010", "subject": "%s(%s)" % (chk[1], n)},
+                                     "impl": "%d report(s)%s" % (got, "" if named else " naming another template"),
                                      "spec": ("flagged" if want else "not flagged") + ": size %s, documented rule n < 254" % ("non-constant" if n is None else n)})
                     if n is None or 250 <= n <= 258 or callable(chk[2]):
-                        nontriv.add(("CS0010", cv, chk[1], st["text"]))
+                        nontriv.add(("CS0010", shown, chk[1], st["text"]))
         for v, info in t.values.items():
             evals += 1
             want = lessthan_expected(info["sizes"], cv)
             got = i14.get(v, 0)
             if (got == 1) != want or got > 1:
-                fail.append({"input": {"kind": "circom", "file": f.name, "curve": cv, "value": v, "rule": "CS0014",
+                fail.append({"input": {"kind": "circom", "file": f.name, "curve": shown, "value": v, "rule": "CS0014",
                                        "sizes": [("non-constant" if size_value(s, cv) is None else size_value(s, cv)) for s in info["sizes"]]},
                              "impl": "%d report(s)" % got,
                              "spec": ("reported" if want else "range-checked") + ": 2^k - 1 <= p/2 for the documented prime of %s" % cv})
             b = DOC_PRIME[cv].bit_length()
             ks = [size_value(s, cv) for s in info["sizes"]]
             if any(k is None or callable(s) or abs(k - b) <= 3 for k, s in zip(ks, info["sizes"])) or len(ks) != 1:
-                nontriv.add(("CS0014", cv, v))
+                nontriv.add(("CS0014", shown, v))
     return dis, fail, evals, nontriv
 
 
@@ -1194,7 +1245,8 @@ def run_corpus_case(ctx, cli, binary, c):
         o = cli_signature(cli, probe, c["spelling"], os.path.join(d, "corpus.sarif"))
         cands = canon.get(o, [o])
         seen = c["expect"] if c["expect"] in cands else cands[0]
-        h = exec_from_str(binary, [c["spelling"]])[0]
+        # spelling None = no `--curve` option (the default): there is no string to hand to from_str
+        h = exec_from_str(binary, [c["spelling"]])[0] if c["spelling"] is not None else seen
         if seen != c["expect"] or h != c["expect"]:
             return {"input": {"kind": "curve-name", "spelling": c["spelling"]}, "impl": "cli: %s, from_str: %s" % (seen, h), "spec": c["expect"]}
         return None
@@ -1239,19 +1291,24 @@ def run(ctx, proofs):
     for f in files:
         texts[f.name] = f.render()
         open(os.path.join(d, f.name + ".circom"), "w").write(texts[f.name])
-    jobs = [(f, cv) for f in files for cv in VARIANTS]
+    # every file under every curve, and once more WITHOUT `--curve` ("default": compared with the model and the
+    # documented semantics under the documented default, BN254 - the property's "under the default curve")
+    jobs = [(f, cv) for f in files for cv in VARIANTS + [DEFAULT_RUN]]
 
     def one(job):
         f, cv = job
         # canonical spelling; mixed-case spellings are exercised by the curve-name sweep
-        return run_cli(cli, os.path.join(d, f.name + ".circom"), CURVE_ARG[cv], os.path.join(d, "%s_%s.sarif" % (f.name, cv)))
+        return run_cli(cli, os.path.join(d, f.name + ".circom"), CURVE_ARG.get(cv), os.path.join(d, "%s_%s.sarif" % (f.name, cv)))
     with concurrent.futures.ThreadPoolExecutor(max_workers=common.NPROC) as ex:
         impl = dict(zip([(f.name, cv) for f, cv in jobs], ex.map(one, jobs)))
     model = model_eval(ctx, files)
     evaluations, nontrivial = 0, set()
     instantiations = sum(len(t.stmts) for f in files for t in f.tmpls)
+    default_evaluations = 0
     for f, cv in jobs:
-        dis, fail, ev, nt = check_file(f, texts[f.name], cv, impl[(f.name, cv)], model[f.name], doc)
+        dis, fail, ev, nt = check_file(f, texts[f.name], DOC_DEFAULT if cv == DEFAULT_RUN else cv, impl[(f.name, cv)], model[f.name], doc, shown=cv)
+        if cv == DEFAULT_RUN:
+            default_evaluations += ev
         for x in fail:
             x["input"]["source_path"] = os.path.join(d, f.name + ".circom")
         disagreements += dis
@@ -1316,7 +1373,8 @@ def run(ctx, proofs):
         "evaluations": evaluations,
         "distinct_nontrivial": len(nontrivial),
         "rule": "one evaluation = one (curve, checked instantiation / LessThan input / --curve spelling) compared with the documented "
-                "semantics; distinct-nontrivial counts (rule, curve, subject) where the subject is a documented table name or a "
+                "semantics, where the curve is one of the three given by --curve or `default` (the run without --curve, compared under "
+                "BN254); distinct-nontrivial counts (rule, curve, subject) where the subject is a documented table name or a "
                 "case variant of one (CS0016), a size within 250..258, non-constant or prime-dependent (CS0010), a bit size within 3 "
                 "of the prime's bit length, non-constant, prime-dependent or multiply checked (CS0014), plus the accepted curve spellings",
         "exhaustive": True,
@@ -1332,6 +1390,9 @@ def run(ctx, proofs):
         "curve_spellings": names["count"], "curve_spellings_accepted_ascii": names["accepted"],
         "non_ascii_curve_spellings_noted": names["notes"],
         "corpus_cases": ncorpus,
+        "default_curve_runs": {"cli_runs_without_curve_option": len(files) + 1, "evaluations": default_evaluations + 1,
+                               "probe_behaves_as": names["default_seen"], "documented_default": DOC_DEFAULT,
+                               "default_value_read_from_source": info["sources"].get("cli_default_curve", "")},
         "disagreements_model_vs_impl": len(disagreements),
         "spec_failures": len(failing),
         "samples": (failing[:2] or disagreements[:2]) or actual_samples,
@@ -1368,17 +1429,20 @@ def replay(ctx, rep):
     os.makedirs(d, exist_ok=True)
     path = os.path.join(d, "replay.circom")
     open(path, "w").write(inp["source"])
-    curve = CURVE_ARG.get(inp["curve"], inp["curve"])
+    curve = None if inp["curve"] == DEFAULT_RUN else CURVE_ARG.get(inp["curve"], inp["curve"])
     rc, res, err = run_cli(cli, path, curve, path + ".sarif")
     rule = inp.get("rule")
     if rule in ("CS0016", "CS0010"):
         got = "%d report(s)" % sum(1 for l, _, _ in res[rule] if l == inp.get("line"))
+        if rule == "CS0010" and not all(("`%s`" % str(inp.get("subject", "")).split("(")[0]) in msg
+                                        for l, _, msg in res[rule] if l == inp.get("line")):
+            got += " naming another template"
     elif rule == "CS0014":
         got = "%d report(s)" % sum(1 for _, lab, _ in res["CS0014"] if lab.startswith("`%s` needs" % inp.get("value")))
     else:
         got = {"CS0016": sorted(l for l, _, _ in res["CS0016"]), "CS0010": sorted(l for l, _, _ in res["CS0010"]),
                "CS0014": sorted(re.sub(r"^`(.*)` needs.*$", r"\1", lab) for _, lab, _ in res["CS0014"])}
-    print("curve %s, %s %s" % (curve, rule or "", inp.get("statement") or inp.get("value") or ""))
+    print("curve %s, %s %s" % (curve or "default (no --curve option)", rule or "", inp.get("statement") or inp.get("value") or ""))
     print("implementation:", got)
     print("documented    :", rep.get("spec"))
     print("recorded      :", rep.get("impl"))
